@@ -911,3 +911,19 @@ where
         .await
     }
 }
+
+/// Verification hook (only with `--cfg d_engine_verif`): public constructor that calls exactly
+/// `RaftMembership::new`, the function `NodeBuilder::build` uses. Adds no behaviour.
+#[cfg(d_engine_verif)]
+impl<T> RaftMembership<T>
+where
+    T: TypeConfig,
+{
+    pub fn verif_new(
+        node_id: u32,
+        initial_nodes: Vec<NodeMeta>,
+        config: RaftNodeConfig,
+    ) -> Self {
+        Self::new(node_id, initial_nodes, config).0
+    }
+}
